@@ -436,20 +436,23 @@ false when the pattern does not compile or does not match; any other type return
 false; after the loop `return true`.  This is the loop `QueryHandle.shouldProcess`
 models (`shouldProcess_eq_all`: = every filter `passes`). -/
 theorem C08_gen_filter_loop :
-    SerfModel.Gen.FilterLoop.loopVar = "filter"
-    ∧ SerfModel.Gen.FilterLoop.beforeSwitch = ["if len(filter) == 0 { return false }"]
-    ∧ SerfModel.Gen.FilterLoop.switchTag = "filterType(filter[0])"
+    -- names are canonical (the extractor renames receiver → recv, locals → l0, l1, … in order
+    -- of declaration): l0 = the filter entry, l1 = the node list, l3 = found, l4 = the tag
+    -- filter, l6 = the node's tags, l7 = matched, l2/l5/l8 = errors
+    SerfModel.Gen.FilterLoop.loopVar = "l0"
+    ∧ SerfModel.Gen.FilterLoop.beforeSwitch = ["if len(l0) == 0 { return false }"]
+    ∧ SerfModel.Gen.FilterLoop.switchTag = "filterType(l0[0])"
     ∧ SerfModel.Gen.FilterLoop.cases =
-      [("filterNodeType", ["var nodes filterNode",
-          "if err := decodeMessage(filter[1:], &nodes); err != nil { return false }",
-          "found := slices.Contains(nodes, s.config.NodeName)",
-          "if !found { return false }"]),
-       ("filterTagType", ["var filt filterTag",
-          "if err := decodeMessage(filter[1:], &filt); err != nil { return false }",
-          "tags := s.config.Tags",
-          "matched, err := regexp.MatchString(filt.Expr, tags[filt.Tag])",
-          "if err != nil { return false }",
-          "if !matched { return false }"])]
+      [("filterNodeType", ["var l1 filterNode",
+          "if l2 := decodeMessage(l0[1:], &l1); l2 != nil { return false }",
+          "l3 := slices.Contains(l1, recv.config.NodeName)",
+          "if !l3 { return false }"]),
+       ("filterTagType", ["var l4 filterTag",
+          "if l5 := decodeMessage(l0[1:], &l4); l5 != nil { return false }",
+          "l6 := recv.config.Tags",
+          "l7, l8 := regexp.MatchString(l4.Expr, l6[l4.Tag])",
+          "if l8 != nil { return false }",
+          "if !l7 { return false }"])]
     ∧ SerfModel.Gen.FilterLoop.defaultCase = ["return false"]
     ∧ SerfModel.Gen.FilterLoop.afterLoop = "return true" := by decide
 
